@@ -133,6 +133,9 @@ func loadEngine(repo string, contractDir string, prop ...string) (*Engine, error
 						o.Modifies = append(o.Modifies, v.Modifies...)
 						o.Decreases = append(o.Decreases, v.Decreases...)
 						o.Reaches = append(o.Reaches, v.Reaches...)
+						if v.Always {
+							o.Always, o.AlwaysTag = true, v.AlwaysTag
+						}
 						if v.Complete {
 							o.Complete, o.CompleteTag = true, v.CompleteTag
 						}
